@@ -50,7 +50,7 @@ func init() {
 			"every 9th of these (engine live): real RawSocketServer/WebsocketServer on unix/TCP sockets with RecvLimit 0/4096/5000/65536/1M and the project's client transports announcing 0/2048/3000/65536: " +
 			"PUBLISHes of exactly limit-1, limit, limit+1, limit+500 bytes from the client, EVENTs 200 bytes below/above the client's limit, contents compared, order and completeness checked, connections must survive (LV4, LV5); " +
 			"non-trivial = transcript with a frame within +-1 of a negotiated limit, a hello/reply that discriminates accept from reject, or a scenario with numbers the codecs represent differently",
-		Required: []string{"TR1", "TR2", "TR3", "TR4", "TR5", "TR6", "TR7", "TR8", "LV4", "LV5"},
+		Required: []string{"TR1", "TR2", "TR3", "TR4", "TR5", "TR6", "TR7", "TR8", "TR9", "LV4", "LV5"},
 		Level:    "exploration",
 	})
 }
@@ -66,7 +66,9 @@ func runC15(c *Case) {
 			runC15Live(c)
 			return
 		}
-		switch (c.Index - c15ServerHS - c15ClientHS) % 5 {
+		switch (c.Index - c15ServerHS - c15ClientHS) % 6 {
+		case 5:
+			c15Unserialisable(c)
 		case 0:
 			c15Sizes(c)
 		case 1:
@@ -910,3 +912,96 @@ func normalizedLogs(w *sim.World) []string {
 }
 
 var _ = model.Exact
+
+
+// c15Unserialisable: in-process sessions can hand the router values that no
+// serializer can encode (a complex number). A message carrying one must be
+// dropped as a whole for receivers on network transports, the messages that
+// follow must still arrive in order, and the connection stays up; receivers
+// on websocket peers with keep-alive enabled are included (their sender also
+// writes PINGs), and in-process receivers get everything.
+func c15Unserialisable(c *Case) {
+	r := c.Rng
+	keepAlive := pick(r, []time.Duration{0, time.Second, 2 * time.Second})
+	panicText := c.Bubble(func() {
+		w, p0, p1, ok := c15World(c, 0)
+		if !ok {
+			return
+		}
+		var subs []*sim.Puppet
+		for k := sim.Kind(0); k < sim.NumKinds; k++ {
+			spec := sim.PuppetSpec{Kind: k, QSize: 256, PipeBuf: 1 << 20}
+			if k.IsWS() {
+				spec.PipeBuf = 1024
+				spec.KeepAlive = keepAlive
+			}
+			s := w.AddPuppet(spec)
+			s.Join("realm1", wamp.Dict{"roles": sim.AllFeatures()})
+			s.Send(&wamp.Subscribe{Request: 1, Options: wamp.Dict{}, Topic: "mixed"})
+			s.Send(&wamp.Register{Request: 2, Options: wamp.Dict{}, Procedure: wamp.URI(fmt.Sprintf("echo.%d", int(k)))})
+			subs = append(subs, s)
+		}
+		w.Wait()
+		for _, s := range subs {
+			s.Take()
+		}
+		bad := pick(r, []any{complex(1, 2), complex64(complex(0, 1)), []any{1, complex(3, 4)}, map[string]any{"z": complex(5, 6)}})
+		n := 0
+		var badSeq []int
+		for round := 0; round < 3; round++ {
+			for i := 0; i < 4; i++ {
+				n++
+				args := wamp.List{n, "fine"}
+				if i == 1+round%2 {
+					args = wamp.List{n, bad}
+					badSeq = append(badSeq, n)
+				}
+				p0.Send(&wamp.Publish{Request: wamp.ID(100 + n), Options: wamp.Dict{}, Topic: "mixed", Arguments: args})
+			}
+			w.Wait()
+			if keepAlive > 0 {
+				w.Advance(keepAlive + keepAlive/2) // at least one keep-alive PING/PONG exchange between the rounds
+			}
+		}
+		isBad := map[int]bool{}
+		for _, b := range badSeq {
+			isBad[b] = true
+		}
+		for _, s := range subs {
+			var got []int
+			for _, o := range s.Log() {
+				if o.Err != "" {
+					c.Fail("TR1", "stream corrupted after an unserialisable message", "subscriber on %s: frame could not be parsed: %s", s.Kind, o.Err)
+				}
+				if ev, ok := o.Msg.(*wamp.Event); ok && len(ev.Arguments) >= 1 {
+					k, _ := canon.AsID(ev.Arguments[0])
+					got = append(got, int(k))
+				}
+			}
+			var want []int
+			for k := 1; k <= n; k++ {
+				if s.Kind == sim.Local || !isBad[k] {
+					want = append(want, k)
+				}
+			}
+			c.Hit("TR9")
+			if fmt.Sprint(got) != fmt.Sprint(want) {
+				c.Fail("TR9", "messages lost or reordered around an unserialisable one", "subscriber on %s (keep-alive %v): received events %v, expected %v (events %v carried a value no serializer can encode)", s.Kind, keepAlive, got, want, badSeq)
+			}
+			if s.Closed() {
+				c.Fail("TR9", "connection ended by an unserialisable message", "subscriber on %s lost its connection", s.Kind)
+			}
+		}
+		c15Probe(c, w, p0, p1, "unserialisable messages")
+		rep := w.Teardown()
+		if !rep.CloseReturned {
+			c.Fail("SD1", "router close did not return", "Router.Close() did not return")
+		}
+	})
+	if panicText != "" {
+		c.Fail("RB1", "bubble panic: "+firstLine(panicText), "%s", panicText)
+	}
+	c.NT = true
+	c.Key = fmt.Sprintf("unserialisable keepalive=%v seed=%d", keepAlive, c.Index)
+	c.Sample = map[string]any{"kind": "unserialisable-values", "keepalive": keepAlive.String()}
+}
